@@ -590,6 +590,115 @@ pub fn run_enumerated(ctx: &mut Ctx, bases: &[Base], weight: &dyn Fn(FieldKind) 
         }
     }
     ctx.extra.insert("surgery_cases".into(), serde_json::json!(idx));
+    // ---- deep nesting: a chain of D boxes of one type nested in one another, appended as the last
+    // child of every box that has children (sizes of the host and its ancestors fixed up). Any
+    // decoder that follows such a chain by recursion needs stack in proportion to the input.
+    ctx.stage("deep-nest");
+    let depth = ctx.pick(60_000usize, 200_000usize);
+    // quick tier: 13 type names x the containers of one generated file; thorough: 30 x two files
+    const NEST: [&str; 30] = ["wave", "sinf", "schi", "udta", "meta", "ilst", "moov", "trak", "stbl", "moof", "traf", "free", "uuid", "rinf", "tref", "mdia", "minf", "dinf", "edts", "mvex", "skip", "stsd", "mp4a", "avc1", "hev1", "esds", "gmhd", "clip", "cmov", "dref"];
+    let (n_names, n_bases) = ctx.pick((13usize, 1usize), (30usize, 2usize));
+    let mut idx = 0u64;
+    for (bi, b) in bases.iter().enumerate().filter(|(_, b)| !b.canned).take(n_bases) {
+        let mut hosts: Vec<(Vec<&PBox>, &PBox)> = Vec::new();
+        fn walk<'a>(boxes: &'a [PBox], anc: &mut Vec<&'a PBox>, out: &mut Vec<(Vec<&'a PBox>, &'a PBox)>) {
+            for pb in boxes {
+                if !pb.children.is_empty() && pb.header == 8 {
+                    out.push((anc.clone(), pb));
+                }
+                anc.push(pb);
+                walk(&pb.children, anc, out);
+                anc.pop();
+            }
+        }
+        walk(&b.boxes, &mut Vec::new(), &mut hosts);
+        for (anc, host) in &hosts {
+            for (name, first) in NEST.iter().copied().take(n_names).chain(std::iter::once("self")).flat_map(|n| [(n, false), (n, true)]) {
+                let my = idx;
+                idx += 1;
+                if !ctx.enter(my) {
+                    continue;
+                }
+                let typ = if name == "self" { host.typ } else { cc(name) };
+                let mut chain = Vec::with_capacity(8 * depth);
+                for i in 0..depth {
+                    chain.extend_from_slice(&((8 * (depth - i)) as u32).to_be_bytes());
+                    chain.extend_from_slice(&typ);
+                }
+                let mut bytes = b.bytes.clone();
+                // as the last child, or as the first one (in front of whatever the host looks for)
+                let e = if first { host.start + host.header + host.prefix.min(host.size - host.header) } else { host.end() };
+                for a in anc.iter().chain(std::iter::once(host)) {
+                    if a.header == 8 {
+                        let cur = u32::from_be_bytes(bytes[a.start..a.start + 4].try_into().unwrap()) as u64;
+                        bytes[a.start..a.start + 4].copy_from_slice(&((cur + chain.len() as u64) as u32).to_be_bytes());
+                    }
+                }
+                bytes.splice(e..e, chain);
+                each(ctx, &AdvCase { bytes, desc: format!("{}: {} '{}' boxes nested in one another as the {} child of {} at {}", b.name, depth, String::from_utf8_lossy(&typ), if first { "first" } else { "last" }, host.name(), host.start), touched: vec![FieldKind::Size], base: bi, baseline: None });
+            }
+        }
+    }
+    ctx.extra.insert("deep_nest_cases".into(), serde_json::json!(idx));
+    // ---- boxes of the specification the library has no decoder for today, in place of their
+    // siblings: the compact sample size box (stz2; 4-, 8- and 16-bit entries) instead of stsz, with an
+    // honest and with inflated sample counts. Skipped as unknown by the current reader.
+    ctx.stage("spec-alternatives");
+    let mut idx = 0u64;
+    for (bi, b) in bases.iter().enumerate().filter(|(_, b)| !b.canned) {
+        let mut found: Vec<(Vec<&PBox>, &PBox)> = Vec::new();
+        fn walk2<'a>(boxes: &'a [PBox], anc: &mut Vec<&'a PBox>, out: &mut Vec<(Vec<&'a PBox>, &'a PBox)>) {
+            for pb in boxes {
+                if pb.typ == cc("stsz") && pb.header == 8 && pb.size >= 20 {
+                    out.push((anc.clone(), pb));
+                }
+                anc.push(pb);
+                walk2(&pb.children, anc, out);
+                anc.pop();
+            }
+        }
+        walk2(&b.boxes, &mut Vec::new(), &mut found);
+        for (anc, pb) in &found {
+            let body = &b.bytes[pb.start + 8..pb.end()];
+            let constant = u32::from_be_bytes(body[4..8].try_into().unwrap());
+            let n = u32::from_be_bytes(body[8..12].try_into().unwrap());
+            let sizes: Vec<u32> = if constant != 0 { vec![constant; n.min(4096) as usize] } else { body[12..].chunks_exact(4).map(|c| u32::from_be_bytes(c.try_into().unwrap())).collect() };
+            for field in [4u8, 8, 16] {
+                for count in [n, n.wrapping_add(1), 1 << 20, 0x0fff_ffff, 0x7fff_ffff, u32::MAX] {
+                    let my = idx;
+                    idx += 1;
+                    if !ctx.enter(my) {
+                        continue;
+                    }
+                    let mut p = vec![0u8, 0, 0, 0, 0, 0, 0, field];
+                    p.extend_from_slice(&count.to_be_bytes());
+                    match field {
+                        4 => {
+                            for pair in sizes.chunks(2) {
+                                p.push(((pair[0] & 0xf) as u8) << 4 | (pair.get(1).copied().unwrap_or(0) & 0xf) as u8);
+                            }
+                        }
+                        8 => p.extend(sizes.iter().map(|x| *x as u8)),
+                        _ => sizes.iter().for_each(|x| p.extend_from_slice(&(*x as u16).to_be_bytes())),
+                    }
+                    let mut bx = ((p.len() + 8) as u32).to_be_bytes().to_vec();
+                    bx.extend_from_slice(b"stz2");
+                    bx.extend(p);
+                    let delta = bx.len() as i64 - pb.size as i64;
+                    let mut bytes = b.bytes.clone();
+                    for a in anc.iter() {
+                        if a.header == 8 {
+                            let cur = u32::from_be_bytes(bytes[a.start..a.start + 4].try_into().unwrap()) as i64;
+                            bytes[a.start..a.start + 4].copy_from_slice(&((cur + delta).max(0) as u32).to_be_bytes());
+                        }
+                    }
+                    bytes.splice(pb.start..pb.end(), bx);
+                    each(ctx, &AdvCase { bytes, desc: format!("{}: stsz at {} replaced by stz2 with {}-bit entries, sample_count {} (table holds {})", b.name, pb.start, field, count, sizes.len()), touched: vec![FieldKind::Count], base: bi, baseline: None });
+                }
+            }
+        }
+    }
+    ctx.extra.insert("spec_alternative_cases".into(), serde_json::json!(idx));
     // ---- oversize-child chains (super-linear work): r sibling copies of a container, cut right after
     // the header of its last child, whose size is stretched over all later copies up to the shared
     // original payload of that child. The size guards reject the first copy; a weakened guard lets
